@@ -89,6 +89,9 @@ def prefix_of(state) -> tuple:
     par = str(state['parent'])
     if par != 'none':
         out += [('pp', (par,)), ('attempt', par, True), ('level', par, 0)]
+    for q, st in sorted(state['conn'].items()):
+        if str(st) == 'openReq' and str(q) != par:          # a connected candidate that has not announced
+            out += [('pp', (str(q),)), ('attempt', str(q), True)]
     for c in sorted(state['children']):
         out.append(('incoming', str(c), False))
     return tuple(out)
@@ -196,25 +199,37 @@ def concretise_groups(abstract, rng, *, variant: int):
     return groups, world
 
 
-def with_server_pause(conc, rng, rate=0.12):
+def with_server_pause(conc, rng, rate=0.12, rate_at_close=0.4, force=False):
     """Now and then the server connection does not drain for a while: every send of the client to the
-    server then suspends (FIFO wake-up) while peers keep talking.  Only peer-side stimuli go inside."""
-    if rng.random() >= rate:
+    server then suspends (FIFO wake-up) while peers keep talking.  Only peer-side stimuli go inside.
+    A link that closes is the preferred start: what the loss of a parent / child triggers then waits
+    while other peers announce themselves."""
+    closes = [i for i, st in enumerate(conc) if st[0] == 'close']
+    if force and closes:
+        i, reach = closes[0], len(conc)
+        j = i
+        while j + 1 < len(conc) and conc[j + 1][0] in PEER_KINDS:
+            j += 1
+        return conc[:i] + [('srvpause',)] + conc[i:j + 1] + [('srvresume',)] + conc[j + 1:]
+    if closes and rng.random() < rate_at_close:
+        i, reach = rng.choice(closes), 4
+    elif rng.random() < rate:
+        spans = [i for i, st in enumerate(conc) if st[0] in PEER_KINDS]
+        if not spans:
+            return conc
+        i, reach = rng.choice(spans), 2
+    else:
         return conc
-    spans = [i for i, st in enumerate(conc) if st[0] in PEER_KINDS]
-    if not spans:
-        return conc
-    i = rng.choice(spans)
     j = i
-    while j + 1 < len(conc) and conc[j + 1][0] in PEER_KINDS and j - i < 2 and rng.random() < 0.7:
+    while j + 1 < len(conc) and conc[j + 1][0] in PEER_KINDS and j - i < reach and rng.random() < 0.8:
         j += 1
     return conc[:i] + [('srvpause',)] + conc[i:j + 1] + [('srvresume',)] + conc[j + 1:]
 
 
-def concretise(abstract, rng, *, variant: int):
+def concretise(abstract, rng, *, variant: int, force_pause: bool = False):
     """Abstract stimuli -> (concrete stimuli for World.do, world keyword arguments)."""
     groups, world = concretise_groups(abstract, rng, variant=variant)
-    return with_server_pause([st for g in groups for st in g], rng), world
+    return with_server_pause([st for g in groups for st in g], rng, force=force_pause), world
 
 
 # ---------------------------------------------------------------------------
@@ -233,7 +248,9 @@ def context_of(trace, idx):
             session = True
         elif not session and ev in ('incoming', 'level', 'root', 'close', 'wcdone', 'attempt'):
             return 'change-while-logged-out'
-        elif ev == 'incoming' and e.get('slow'):
+        elif ev == 'srvpause':
+            ctx = 'server-link-back-pressured'
+        elif ev == 'incoming' and e.get('slow') and ctx == 'plain':
             ctx = 'slow-child-link'
     return ctx
 
@@ -304,6 +321,17 @@ def collect(chk: Check, thorough: bool):
     scheds.setdefault((('pp', ('p1',)), ('attempt', 'p1', True), ('level', 'p1', 1), ('root', 'p1', 'r1'),
                        ('incoming', 'p2', True), ('close', 'p1'), ('wcdone', 'p1'), ('drained', 'p2')),
                       'counterexample:F13-3-parent-lost')
+    # scenario probes: shortest behaviours (from the small initial trees) in which the parent is lost and an
+    # already connected candidate takes over while children listen; replayed with the server connection
+    # back-pressured from the loss on (what the loss triggers waits in its sends to the server)
+    for cfg in ('MC_c13_probe_a.cfg', 'MC_c13_probe_b.cfg'):
+        r = tlc.run_tlc(MC, cfg, timeout=900)
+        hit = [i for i in r.issues if i.kind == 'invariant' and i.trace]
+        if not hit:
+            raise MachineryFailure(f'{cfg}: the probe produced no behaviour')
+        tr = hit[0].trace
+        scheds.setdefault(prefix_of(tr[0][1]) + abstract_stimuli([lab for lab, _ in tr[1:]]),
+                          'probe:parent-lost-candidate-takes-over')
     n_cex = len(scheds)
 
     # (2) transition cover of the exhaustive two-peer graph (from the four small initial trees)
@@ -344,7 +372,7 @@ def sample_by_source(chk: Check, scheds, keys, cap):
     simulated behaviours) - the cover is far larger than the simulation and would crowd it out."""
     if len(keys) <= cap:
         return keys
-    src = lambda k: scheds[k].split(':')[0]
+    src = lambda k: 'counterexample' if scheds[k].split(':')[0] in ('counterexample', 'probe') else scheds[k].split(':')[0]
     head = [k for k in keys if src(k) == 'counterexample']
     pools: dict = {}
     for k in keys:
@@ -387,7 +415,7 @@ def run(chk: Check, args):
         chk.add_model('DistributedTree C13, all repairs, 3 peers, 5 events, back-pressured child links', r)
 
     scheds = collect(chk, thorough)
-    keys = sorted(scheds, key=lambda s: (scheds[s].split(':')[0] != 'counterexample', repr(s)))
+    keys = sorted(scheds, key=lambda s: (scheds[s].split(':')[0] not in ('counterexample', 'probe'), repr(s)))
     cap = 6000 if thorough else 900
     keys = sample_by_source(chk, scheds, keys, cap)
 
@@ -399,10 +427,11 @@ def run(chk: Check, args):
     try:
         for n, ab in enumerate(keys):
             variants = [(n % 3, True)]
-            if thorough or scheds[ab].startswith('counterexample') or n % 4 == 0:
+            probe = scheds[ab].startswith('probe')
+            if thorough or probe or scheds[ab].startswith('counterexample') or n % 4 == 0:
                 variants.append(((n + 1) % 3, False))        # free-running wait_closed
             for variant, hold in variants:
-                conc, world = concretise(ab, chk.rng, variant=variant)
+                conc, world = concretise(ab, chk.rng, variant=variant, force_pause=probe)
                 if not hold:
                     conc = [s for s in conc if s[0] != 'wcdone']
                 ev, info = run_schedule(conc, hold=hold, tmpdir=tmp, **world)
